@@ -55,9 +55,10 @@ Combine(subs) ==
 \*   condE: 64 eps (1 + amp / sin(theta'))   likewise                     -- what the conditioning of the problem itself allows
 \* Where algoE stays below 2^-6 the result must meet it.  Where it does not (mix within ~1e-2 rad [float] / ~1e-6 rad [double] of the
 \* antipodal pair; extra spins for pairs that close to parallel, linear-fallback zone included) the formula has lost its accuracy:
-\* a result that still meets condE is accepted; any other finite result in the plane of x and y (and the all-NaN result of mix:
-\* acos of a dot product below -1) is the pinned known deviation; anything else is rejected.
-ScaleQ(obs) == QFromD(DMax(DOne, DMaxAbs(obs)))
+\* a result that still meets condE is accepted; any other finite result (and the all-NaN result of mix: acos of a dot product
+\* below -1) is the pinned known deviation; Inf, partial NaN, NaN from slerp are rejected.  (The wrong results are the weighted sum
+\* k0 x + k1 y with weights of the order 1/sin(theta): their rounding noise leaves the plane of x and y by an unbounded factor,
+\* so the pin cannot be narrowed to "in the plane".)
 ArcJudge(w, j, t, aj, th, obsW, side, k, kind) ==
     LET m == WM(w)
         obs == ObsSeq(obsW)
@@ -93,7 +94,7 @@ ArcJudge(w, j, t, aj, th, obsW, side, k, kind) ==
     IN IF ~ObsAllFin(obsW)
        THEN (IF unstable /\ kind = "mix" /\ AllNaNW(obsW) THEN "unstable-mix" ELSE "bad")
        ELSE IF good THEN "ok"
-       ELSE IF unstable /\ InPlane(w, obs, QMul(QFromInts(1, 1024), ScaleQ(obs))) THEN (IF kind = "mix" THEN "unstable-mix" ELSE "unstable-spin")
+       ELSE IF unstable THEN (IF kind = "mix" THEN "unstable-mix" ELSE "unstable-spin")
        ELSE "bad"
 
 \* ---------------------------------------------------------------- functions judged on the logged floating inputs
